@@ -37,10 +37,15 @@ def check_c13(case, stats=None):
     fdtok = {}
 
     must_immediate = []
+    timed = []              # (token, arrival time us, timeout ns, settings epoch)
+    epoch = [0]
+    now_t = [0]
 
     def arrive(tok, prio):
         nonlocal pending
         arrivals.append(tok)
+        if timeout > 0:
+            timed.append((tok, now_t[0], timeout, epoch[0]))
         if prio != "L" and size == 0 and timeout == 0 and not pending:
             must_immediate.append(tok)
         pending.append(tok)
@@ -61,7 +66,15 @@ def check_c13(case, stats=None):
 
     ctx_loop = None
     flush_batches = []
+    epoch_end = {}          # epoch -> time at which it ended
+    quit_t = None
     for r in recs:
+        now_t[0] = r.t
+        if r.k == "<" and r.op in ("bsize", "btimeout", "stop", "pause", "dereg", "ctx_quit") and r.ret is not None and r.ret >= 0:
+            sl_ = r.begin.fields.get("slots", []) if r.begin is not None else []
+            if r.op == "ctx_quit" or (sl_ and sl_[0] == target):
+                epoch_end[epoch[0]] = r.t
+                epoch[0] += 1
         if r.k == "S":
             if r.ctx.get("loop") in ("0", "1"):
                 ctx_loop = r.ctx["loop"]
@@ -161,6 +174,17 @@ def check_c13(case, stats=None):
         stats["arrivals"] = stats.get("arrivals", 0) + len(arrivals)
         stats["invocations"] = stats.get("invocations", 0) + len(observed)
     if case.sc.meta.get("serialised") and timing:
+        # a batch timeout that expires with events pending hands them over: an event that arrived while a timeout of T was
+        # in force and then had more than 3T + 20 ms of undisturbed loop time must not have waited for the final flush
+        nonflush0 = set(t for b, _r in observed if id(b) not in flush_batches for t in b)
+        stopped0 = set(t for e in expected if isinstance(e, tuple) and e[0] == "DISCARD" for t in e[1])
+        for tok, t_a, to_ns, ep in timed:
+            end = epoch_end.get(ep)
+            if end is None:
+                continue
+            if end - t_a > 3 * to_ns / 1000 + 20000 and tok not in nonflush0 and tok not in stopped0:
+                bad("timeout-did-not-flush", "event %s arrived while module %d had a batch timeout of %d ns; the loop then ran undisturbed for %d us but the handler was never invoked for it before the final flush" % ((tok,), target, to_ns, end - t_a))
+                break
         # with neither a batch size nor a batch timeout in force a normal/high event is delivered at once: it must not
         # have waited for the final flush of the run
         nonflush = set(t for b, _r in observed if id(b) not in flush_batches for t in b)
